@@ -142,6 +142,7 @@ class Family:
         self.table_keys: Set[Tuple[str, ...]] = set()
         self.lookup_vars: Set[str] = set()  # names defined by TABLE.get(path)
         self.dispatch_calls: List[ast.Call] = []
+        self.entry_calls: Dict[str, List[ast.Call]] = {}  # handler qname -> the calls of the holder through which it is entered
 
     def members(self) -> List[Func]:
         return [self.holder] + [m for m, _ in self.handlers.values()]
@@ -177,6 +178,31 @@ def families(ctx: Ctx) -> List[Family]:
         for n in h.own_nodes():
             if isinstance(n, ast.Call) and isinstance(n.func, ast.Name) and n.func.id in fam.lookup_vars:
                 fam.dispatch_calls.append(n)
+        # a branch of the holder moved into a method of the same class: `if path == <API path>: return cls._handle_keep(.., call_stack)`
+        stack_param = "call_stack" if "call_stack" in h.params else None
+        for n in h.own_nodes():
+            if isinstance(n, ast.Call) and isinstance(n.func, ast.Attribute) and isinstance(n.func.value, ast.Name) and n.func.value.id in ("cls", "self", c.name) \
+                    and n.func.attr in c.methods and c.methods[n.func.attr] is not h:
+                m_ = c.methods[n.func.attr]
+                passes_stack = stack_param is not None and any(isinstance(a, ast.Name) and a.id == stack_param for a in list(n.args) + [k.value for k in n.keywords])
+                if not passes_stack or "call_stack" not in m_.params:
+                    continue
+                kp: Tuple[str, ...] = ()
+                for a in ancestors(h.module, n):
+                    if isinstance(a, ast.If) and isinstance(a.test, ast.Compare) and len(a.test.ops) == 1 and isinstance(a.test.ops[0], ast.Eq):
+                        cp_ = _const_path(a.test.comparators[0]) or _const_path(a.test.left)
+                        if cp_ is not None and any(x is n for b_ in a.body for x in ast.walk(b_)):
+                            kp = cp_
+                            break
+                    if isinstance(a, (ast.FunctionDef, ast.AsyncFunctionDef)):
+                        break
+                fam.handlers[m_.qname] = (m_, kp)
+                fam.entry_calls.setdefault(m_.qname, []).append(n)
+                if kp:
+                    fam.table_keys.add(kp)
+        for hq in fam.handlers:
+            if hq not in fam.entry_calls:
+                fam.entry_calls[hq] = list(fam.dispatch_calls)
         out.append(fam)
     return out
 
@@ -404,8 +430,14 @@ def run(ctx: Ctx) -> None:
             pushed: List[ast.Name] = []
             ok_shape = bool(exprs)
             wit: List[str] = []
+            self_guarded: Set[str] = set()
             for e in exprs:
                 p = _stack_push(e)
+                if p is None:
+                    gp = guarded_push(ctx, f, e)
+                    if isinstance(gp, ast.Name):
+                        p = gp
+                        self_guarded.add(gp.id)  # the helper holds the membership rejection itself
                 if p is None:
                     ok_shape = False
                     wit.append(f"{where}: stack argument `{unparse(e, 60)}` is not `call_stack + [callee path]`: a cycle through this call is never seen")
@@ -429,7 +461,7 @@ def run(ctx: Ctx) -> None:
                 for (left, right, outs, r) in guards:
                     if left.id == p.id and set(fl.defs_of_use(left)) == pdefs:
                         doms += outs
-                w = dominated(ctx, f, call, doms)
+                w = None if p.id in self_guarded else dominated(ctx, f, call, doms)
                 if w is not None:
                     bad = True
                     wit += [f"no `{p.id} in call_stack` rejection on this path to the descent:"] + w
@@ -467,6 +499,9 @@ def run(ctx: Ctx) -> None:
         hq_ = fam_.holder.qname
         api_paths.setdefault(hq_, set()).update(paths | fam_.table_keys)
         codes.setdefault(hq_, set()).update({c for c in (error_code_of(n) for n in f.own_nodes() if isinstance(n, ast.Raise)) if c})
+        for n in f.own_nodes():
+            if isinstance(n, ast.Call) and guarded_push(ctx, f, n) is not None:
+                codes[hq_].add("CIRCULAR_CALL")
     rep.floor("C11.R2", n_desc, 4)
     fams_ = families(ctx)
     a, b = fams_[0].holder, fams_[1].holder
@@ -542,12 +577,8 @@ def _overlap_input(ctx: Ctx, top: Func, detector: Func) -> None:
     prog = ctx.prog
     fl = flow_of(prog, top)
     dcalls = [n for n in top.own_nodes() if isinstance(n, ast.Call) and detector in prog.callees(top, n, ctx._types)[0]]
-    req = None
-    for n in top.own_nodes():
-        if isinstance(n, ast.Call) and isinstance(n.func, ast.Attribute) and n.func.attr == "_replace":
-            for k in n.keywords:
-                if k.arg == "requested_paths":
-                    req = k.value
+    from .common import path_map_value
+    req = path_map_value(top)
     if not dcalls or req is None or not isinstance(req, ast.Name):
         rep.unknown("C11.R6", top.qname, "cannot relate the overlap detector's input to the evaluation's path map", top.loc())
         return
@@ -593,6 +624,39 @@ def _const_path(e: ast.AST) -> Optional[Tuple[str, ...]]:
         if isinstance(l, ast.List) and all(const_str(x) is not None for x in l.elts):
             return tuple(const_str(x) for x in l.elts)  # type: ignore
     return None
+
+
+def guarded_push(ctx: Ctx, f: Func, e: ast.AST) -> Optional[ast.AST]:
+    """`helper(call_stack, P)` where helper raises CIRCULAR_CALL when P is already on the stack and otherwise returns
+    `stack + [P]` on every normal path: the pushed expression P, else None"""
+    if not isinstance(e, ast.Call):
+        return None
+    fs, _ = ctx.prog.callees(f, e, ctx._types)
+    if len(fs) != 1:
+        return None
+    g = fs[0]
+    rets = [r for r in g.own_nodes() if isinstance(r, ast.Return)]
+    if not rets:
+        return None
+    pushed_param = None
+    for r in rets:
+        pv = _stack_push(r.value) if r.value is not None else None
+        if pv is None or pv.id not in g.params:
+            return None
+        if pushed_param not in (None, pv.id):
+            return None
+        pushed_param = pv.id
+    gcfg = cfg_of(g)
+    outs: List[Node] = []
+    for r in raises_with_code(g, "CIRCULAR_CALL"):
+        o, atoms = pass_outcomes(gcfg, g.module, r)
+        for a in atoms:
+            if isinstance(a, ast.Compare) and len(a.ops) == 1 and isinstance(a.ops[0], ast.In) and isinstance(a.left, ast.Name) and a.left.id == pushed_param:
+                outs += [x for x in o if x.ast is a]
+    if not outs or any(dominated(ctx, g, r, outs) is not None for r in rets):
+        return None
+    args = bind_arg(g, e, pushed_param)  # type: ignore
+    return args[0] if len(args) == 1 else None
 
 
 def _stack_push(e: ast.AST) -> Optional[ast.Name]:
